@@ -310,7 +310,7 @@ void function_level(vf::Ctx& c)
     c.desc << vf::type_name<T>::get() << " refine d=" << dims << " bins=" << bins << " alpha=" << vf::show(alpha) << " chain=" << chain
            << " start=" << ghow << ' ' << show_grid(pdf, 10) << " data=";
     check_partition(c, pdf, "generated start grid");
-    bool moved = false, judged = false, zero_info = false, skipped = false, excluded = false;
+    bool moved = false, judged = false, zero_info = false, skipped = false, excluded = false, huge_data = false;
     for (std::size_t step = 0; step != chain; ++step)
     {
         std::vector<T> data(dims * bins);
@@ -319,6 +319,7 @@ void function_level(vf::Ctx& c)
         {
             gen_data_dim<T>(t, data, i, bins, how);
             std::vector<T> dd(data.begin() + i * bins, data.begin() + (i + 1) * bins);
+            if (smoothing_overflows(dd)) { huge_data = true; }
             if (smoothing_overflows(dd) && vf::is_known(SIG_OVERFLOW))
             {
                 // known finding: route around the class by scaling this dimension's data into range
@@ -344,6 +345,7 @@ void function_level(vf::Ctx& c)
     if (zero_info) { c.label("zero-data-dimension"); }
     if (skipped) { c.label("model-skipped-class"); }
     if (excluded) { c.label("excluded_known"); }
+    if (huge_data && !excluded) { c.label("data-near-largest-finite"); }
     if (chain >= 2) { c.label("chain>=2"); }
     if (ghow != "uniform") { c.label("non-uniform-start"); }
     c.label("function-level");
